@@ -348,6 +348,14 @@ def constructed_5060():
                     out.append((mb2, gs, 0.0, alt))
                     out.append((mb2, gs + 15, 2.0, alt))
                     out.append((mb2, tas, hdg, alt))
+    # the two readings close together: heading 0.18 deg / track 0, so that they differ only by TAS(Mach, altitude) vs
+    # ground speed (0.3 .. 0.6 kt per count): the reference sits exactly on the 6,0 reading AT THE SUPPLIED ALTITUDE -
+    # an arbiter that converts Mach at any other altitude (the reply's own, say) picks the other one
+    for alt in (1000, 5000, 20000, 38000):
+        for mraw in (150, 200, 225, 240):
+            mb3 = BR.bit(1) | BR.bit(12) | BR.bit(24) | BR.field(25, 10, mraw)
+            out.append((mb3, I.mach2tas(mraw * 2.048 / 512, alt * I.FT) / I.KTS, 90 / 512.0, alt))
+            out.append((mb3, mraw * 2.0, 0.0, alt))
     return out
 
 
@@ -355,13 +363,16 @@ def w_5060c(_):
     acc = Acc()
     nwin = 0
     for i, (mb, spd, trk, alt) in enumerate(constructed_5060()):
-        msg = carrier(mb, i, df=21)
-        acc.n += 1
-        if winner(msg, spd, trk, alt):
-            nwin += 1
-        s = judge("5060", (msg, spd, trk, alt))
-        if s:
-            acc.bad(s, {"kind": "5060", "p": [msg, spd, trk, alt]})
+        # the reply in a DF21 carrier and in DF20 carriers whose own altitude field is unknown / 1000 ft / 38000 ft: the
+        # arbitration is against the SUPPLIED reference, whatever the reply itself says about altitude
+        for msg in (carrier(mb, i, df=21), carrier(mb, i, df=20, ac13=0), carrier(mb, i, df=20, ac13=AL.q1_encode(2000 // 25)),
+                    carrier(mb, i, df=20, ac13=AL.q1_encode(39000 // 25))):
+            acc.n += 1
+            if winner(msg, spd, trk, alt):
+                nwin += 1
+            s = judge("5060", (msg, spd, trk, alt))
+            if s:
+                acc.bad(s, {"kind": "5060", "p": [msg, spd, trk, alt]})
         acc.out.add(("5060c", mb, round(spd), round(trk)))
     acc.c["is50or60_cases_with_decidable_winner"] = nwin
     return acc.res()
